@@ -124,7 +124,10 @@ def handle (ctx : Ctx) (ln : String) : Option String :=
       let i := sid.toNat!
       let acc := accepted ctx.U i
       let own := match ctx.R.getD i none with
-        | some sd => "1 " ++ fieldsString ctx.U sd
+        | some sd =>
+          -- a struct without schema fields prints an empty field list: no trailing blank
+          let fsStr := fieldsString ctx.U sd
+          if fsStr.isEmpty then "1" else "1 " ++ fsStr
         | none => "0"
       let exp := (if acc then "acc=1" else "acc=0") ++ " own=" ++ own
       let got := " ".intercalate go
